@@ -84,6 +84,7 @@ def check_chunk(args):
         os.chdir(root)
         canon = {tuple(["B"] + rel.split("/")): os.path.join(base, rel) for rel in REG}
         for ci, case in enumerate(cases):
+            core.tick(case, 300)
             members = {tuple(m) for m in case["members"]}
             ignored = {tuple(m) for m in case["ignored"]}
             tg = tags_of(case)
